@@ -682,6 +682,33 @@ def check_C11(ctx):
                     small.append({"op": "run", "env": {}, "version": None, "root": gen.mkcmd("app", decls=copy.deepcopy(sdecls), spec=sp, policy=0),
                                   "argv": line})
                 sgroups.append((start, len(small)))
+    # long names that differ only in the middle (two long flags, clusters of ten letters): the search remembers failed
+    # configurations in buckets found through a hash of the first and last bytes of the arguments, and must still tell apart
+    # what the hash does not; the specs make it backtrack after input was consumed
+    ldecls = [gen.mkopt("custom", "abcdXefgh", custom=dict(gen.CUSTOM_FLAG)), gen.mkopt("custom", "abcdYefgh", custom=dict(gen.CUSTOM_FLAG)),
+              gen.mkopt("custom", "c", custom=dict(gen.CUSTOM_FLAG)), gen.mkopt("custom", "d", custom=dict(gen.CUSTOM_FLAG)),
+              gen.mkopt("custom", "a", custom=dict(gen.CUSTOM_FLAG)), gen.mkopt("custom", "b", custom=dict(gen.CUSTOM_FLAG))]
+    L1, L2 = "--abcdXefgh", "--abcdYefgh"
+    lunits = [([L1], "1"), ([L2], "2"), (["-c"], "c"), (["-d"], "d"), (["-aaaaabaaaa"], "ab"), (["-aaaaaaaaaa"], "a"), (["-a"], "a"), (["-b"], "b")]
+    lspecs = ["(%s | %s) -d [%s] [-c]" % (L2, L1, L2), "(%s | %s) %s..." % (L1, L2, L1), "[%s] [%s] -c -d %s" % (L1, L2, L1),
+              "(%s | %s | -c)... -d" % (L1, L2), "[%s | %s]... -c %s" % (L1, L2, L2), "(-a | -b) -a...", "(-a | -b)... -c", "[-a]... -b -a...",
+              "(%s -c | %s) -d %s" % (L1, L2, L1)]
+    llines = [ls for n in (2, 3, 4) for ls in itertools.product(lunits, repeat=n)]
+    lcombos = [(sp, ls) for sp in lspecs for ls in llines]
+    if len(lcombos) > ctx.scale(3000, 30000):
+        lcombos = rng.sample(lcombos, ctx.scale(3000, 30000))
+    for sp, ls in lcombos:
+        start = len(small)
+        vs = [list(ls)]
+        for i in range(len(ls) - 1):
+            if not set(ls[i][1]) & set(ls[i + 1][1]):
+                sw = list(ls)
+                sw[i], sw[i + 1] = sw[i + 1], sw[i]
+                vs.append(sw)
+        for v in vs:
+            small.append({"op": "run", "env": {}, "version": None, "root": gen.mkcmd("app", decls=copy.deepcopy(ldecls), spec=sp, policy=0),
+                          "argv": [t for u in v for t in u[0]]})
+        sgroups.append((start, len(small)))
     number(small, start=len(cases))
     res_s = correspond(ctx, small, ["outcome", "trace", "values"], "small scope: folded tokens and loops")
     spairs = 0
@@ -1013,6 +1040,24 @@ def check_C17(ctx):
             ctx.violation("help", "help of %r differs at line %d: got %r, expected %r" %
                           (" ".join(x["name"].split()[0] for x in cmds), k, a["stderr"][k:k + 1], want[k:k + 1]), case=c)
     ctx.stream("declaration trees, long help", 0)
+    # a spec with `=<text>` annotations (the only place of a spec where any character may stand): the usage line shows the spec
+    # as it was written, a `%` included
+    ann = []
+    for sp in ("[-q] [--ratio=<0-100%>] FILE", "-r=<%d%%> FILE...", "[--ratio=<50%s>] [FILE]", "--ratio=<100%> -q=<%v> FILE"):
+        adecl = [gen.mkopt("bool", "q", **{"def": ["false"]}), gen.mkopt("string", "r ratio", **{"def": [""]}), gen.mkarg("strings", "FILE")]
+        if "-q=<" in sp:
+            adecl[0] = gen.mkopt("string", "q", **{"def": [""]})
+        for argv in (["--help"], ["-h"], ["--nope"], []):
+            for pol in (0, 2):
+                ann.append(({"op": "run", "env": {}, "version": None, "argv": argv,
+                             "root": gen.mkcmd("app", decls=copy.deepcopy(adecl), spec=sp, policy=pol, action={"k": "ret"})}, sp))
+    number([a_[0] for a_ in ann], start=len(cases) + 100000)
+    ares = correspond(ctx, [a_[0] for a_ in ann], ["outcome", "trace", "stderr"], "annotated specs in the usage line")
+    for c_, sp in ann:
+        a, _ = ares[c_["id"]]
+        ul = [l for l in a["stderr"] if l.startswith("Usage: ")]
+        if a["stderr"] and (not ul or ul[0] != "Usage: app " + sp):
+            ctx.violation("help", "spec %r, line %r: the usage line is %r" % (sp, c_["argv"], ul[:1]), case=c_)
     # help and version printed by a callback through PrintHelp(), PrintLongHelp(), PrintVersion()
     pcases = [p_[0] for p_ in printed]
     for text in ("v9", "1.0\nsecond line"):
